@@ -20,7 +20,7 @@ LEAN_TARGETS = ['CfVerif.Props.C20']
 PROPS_MODULES = ['CfVerif.Props.C20']
 DRIVER = 'Driver/C20.lean'
 REQUIRED_THEOREMS = ['CfVerif.C20.' + t for t in (
-    'parse_print', 'parse_print_query_options', 'parse_print_other_options', 'defaults_when_omitted', 'trailing_slash_ignored',
+    'parse_print', 'short_address_zero_padded', 'parse_print_query_options', 'parse_print_other_options', 'defaults_when_omitted', 'trailing_slash_ignored',
     'defaults_when_omitted_live_counterexample', 'long_address_rejected', 'bad_channel_rejected', 'unknown_dongle_rejected',
     'scan_results_parse_back', 'scan_selected_parse_back', 'one_driver_per_scheme', 'scheme_claimed_by_its_driver', 'init_drivers_lists',
     'get_link_driver_picks', 'radio_uri_connects_with_parsed_settings', 'unknown_or_malformed_gives_connection_failed',
